@@ -1854,6 +1854,35 @@ class Module:
     def state_dict(self):
         return {k: p.detach().clone() for k, p in self.named_parameters()}
 
+    def _convert(self, dt):
+        # torch converts the floating-point parameters in place (the Parameter objects keep their identity)
+        for p_ in self.parameters():
+            if p_.dtype.cat >= 2 and p_.dtype is not dt:
+                c = _cast(p_.detach(), dt)
+                p_.a = c.a
+                p_.dtype = dt
+        return self
+
+    def double(self):
+        return self._convert(float64)
+
+    def float(self):
+        return self._convert(float32)
+
+    def half(self):
+        unsupported('Module.half')
+
+    def to(self, *args, **kw):
+        dt = kw.get('dtype', None)
+        for x in args:
+            if _isinstance(x, dtype):
+                dt = x
+        if dt is not None:
+            if dt.cat < 2:
+                raise TypeError('nn.Module.to only accepts floating point or complex dtypes')
+            self._convert(dt)
+        return self
+
     def load_state_dict(self, sd, strict=True):
         own = dict(self.named_parameters())
         if strict and set(own) != set(sd):
